@@ -528,6 +528,11 @@ pub fn generate(profile_name: &str, seed: u64) -> Scenario {
     if profile_name == "idle" && seed % 160 == 17 {
         return generate_marathon(seed);
     }
+    if (profile_name == "lifecycle" || profile_name == "kill") && seed % 16 == 5 {
+        let mut sc = generate_pileup(seed);
+        sc.profile = profile_name.to_string();
+        return sc;
+    }
     let p = profile(profile_name);
     let mut r = Rng::new(seed ^ crate::util::mix(0xABCD, profile_name.len() as u64 * 131 + profile_name.as_bytes()[0] as u64));
     let n = r.range(p.actors.0, p.actors.1) as usize;
@@ -1086,6 +1091,71 @@ fn generate_overlap(seed: u64) -> Scenario {
         sample_until: 61,
         default_cap: 32,
         fixed_timing: true,
+    }
+}
+
+/// Several reasons to end pile up while the actor cannot look at its channels (it is still inside a slow on_start, or parked in
+/// a gated handler): stop, kill, the last reference going away, a queued message whose handler panics, ordinary messages - in
+/// every order, all issued at one instant. Whatever happens next must be one of the outcomes each single cause allows.
+fn generate_pileup(seed: u64) -> Scenario {
+    let mut r = Rng::new(seed ^ 0x911E);
+    let in_start = r.chance(50);
+    let mut uid = 0u64;
+    let mut nu = || {
+        uid += 1;
+        uid
+    };
+    let mut ops = vec![];
+    if !in_start {
+        ops.push(ClientOp { pre: Pre::None, op: Op::Send { slot: 0, kind: SendKind::Tell, mty: MTy::U, body: Body { uid: nu(), flags: 0, steps: vec![Step::Gate(0)] } } });
+        ops.push(ClientOp { pre: Pre::Sleep(2), op: Op::CloneSlot { from: 0, to: 1 } });
+    } else {
+        ops.push(ClientOp { pre: Pre::None, op: Op::CloneSlot { from: 0, to: 1 } });
+    }
+    // the pile: a random selection in random order, all at the same instant
+    let mut pile: Vec<Op> = vec![];
+    let menu = 2 + r.below(4);
+    for _ in 0..menu {
+        pile.push(match r.below(8) {
+            0 => Op::Kill { slot: 0 },
+            1 => Op::StopTo { slot: 0, ms: 2 },
+            2 => Op::Send { slot: 0, kind: SendKind::Tell, mty: MTy::U, body: Body { uid: nu(), flags: 0, steps: vec![Step::Panic] } },
+            3 => Op::Send { slot: 1, kind: SendKind::Tell, mty: MTy::U, body: Body::plain(nu()) },
+            4 => Op::SendDeferred { slot: 1, kind: SendKind::Ask, body: Body::plain(nu()), defer: 0 },
+            5 => Op::Send { slot: 0, kind: SendKind::TellTo(2), mty: MTy::S, body: Body::plain(nu()) },
+            6 => Op::Kill { slot: 1 },
+            _ => Op::StopTo { slot: 1, ms: 4 },
+        });
+    }
+    for (i, op) in pile.into_iter().enumerate() {
+        ops.push(ClientOp { pre: if i == 0 && in_start { Pre::Yield } else { Pre::None }, op });
+    }
+    if r.chance(60) {
+        ops.push(ClientOp { pre: Pre::None, op: Op::DropSlot { slot: 0 } });
+        ops.push(ClientOp { pre: Pre::None, op: Op::DropSlot { slot: 1 } });
+    }
+    if !in_start && r.chance(50) {
+        ops.push(ClientOp { pre: Pre::Sleep(2 * r.range(1, 3)), op: Op::OpenGate(0) });
+    }
+    let actor = ActorSpec {
+        cap: Some(*r.pick(&[1usize, 2, 4, 16])),
+        start: HookScript { delay: if in_start { 2 * r.range(2, 4) } else { 0 }, steps: vec![], out: Out::Ok },
+        run: if r.chance(40) { vec![RunStep { segs: vec![2 * r.range(1, 3)], steps: vec![], out: if r.chance(30) { Out::Err } else { Out::True } }] } else { vec![] },
+        stop: HookScript { delay: if r.chance(40) { 2 * r.range(1, 2) } else { 0 }, steps: vec![], out: if r.chance(15) { Out::Err } else { Out::Ok } },
+        run_err_when_handled: None,
+        in_peers: false,
+    };
+    Scenario {
+        seed,
+        pert: 0,
+        profile: "lifecycle".to_string(),
+        actors: vec![actor],
+        clients: vec![ClientSpec { init: vec![Some(0), None, None, None], ops, drop_at_end: r.chance(70) }],
+        ngates: 1,
+        teardown: vec![*r.pick(&[Teardown::Stop, Teardown::Kill, Teardown::DropAll])],
+        sample_until: 31,
+        default_cap: 32,
+        fixed_timing: false,
     }
 }
 
